@@ -86,6 +86,15 @@ CHECKS = {
    note="Trusted: TLC, Disabled.tla. Catch-all schemes and schemes whose hashes start with a marker character are excluded (ambiguous by construction). "
         "Dummy verification is observed as a call, not timed.",
    technique="TLA+ spec (Disabled.tla) model-checked with TLC + spec-to-implementation history replay on real contexts"),
+ "C17": dict(cat=MC, design="DESIGN.md §3 C17",
+   text="Presets.tla is instantiated from the implementation: scheme order of every exported context (passlib.apps, passlib.hosts, the htpasswd "
+        "context, the Django-extension presets) and the matrix 'scheme t claims hash h' obtained from handler.identify() over generated hashes of all "
+        "its schemes (every ident, salt sizes, implicit-rounds forms, marker strings); TLC decides first-claimant attribution for every (context, "
+        "scheme, hash) - an extracted-model failure is a code violation; each verdict is tied back to CryptContext.identify and verify(right/wrong). "
+        "Registry.tla (lazy loading through two access paths) is model-checked and access sequences over all registered names are replayed in fresh interpreters.",
+   note="Trusted: TLC, handler.identify() as source of the matrix (cross-checked against ctx.identify). Host dependent scheme lists; argon2 has no backend here; "
+        "apps.master_context (internal, documented ambiguous, not in __all__) is excluded.",
+   technique="TLA+ model extracted from the code (Presets.tla) checked with TLC + replay on the real contexts; Registry.tla model-checked and replayed"),
 }
 PENDING = {}
 props = [json.loads(l) for l in open(os.path.join(HERE, "properties.jsonl"))]
